@@ -21,7 +21,7 @@ by the language definition (spec.md), independently of the checker:
                        that class instantiates a bounded type parameter, explicitly or by inference (5.6, 5.8)
   int-range            2147483648 (not after `-`) / -2147483649 (2.2, 13.3)
   match-nonexhaustive  one arm of a match whose arms are distinct plain variant patterns deleted (6.11)"""
-import json, os, time
+import json, os, re, time
 from concurrent.futures import ThreadPoolExecutor
 from vlib import *
 import progcommon as pc
@@ -98,6 +98,8 @@ def mutate_and_observe(d, gen, repo, tier, avoid):
     feats = FEATS
     del feats[:]
     for path in sorted(glob.glob(os.path.join(VERIF, "corpus", "c06", "*"))) + sorted(glob.glob(os.path.join(VERIF, "corpus", "c01", "*.sam"))):
+        if os.path.basename(path) == "ill_typed":
+            continue
         if os.path.isdir(path):      # a program of several modules: the module name is the relative path
             srcs = {}
             for root, _, files in os.walk(path):
@@ -173,6 +175,36 @@ def source_of(rec, programs_by_id):
     srcs[f["edited"]] = (t[:f["start"]] + f["after"].encode() + t[f["end"]:]).decode()
     return {"origin": rec["origin"], "entry": base["entry"], "sources": srcs, "with_std": base.get("with_std", True),
             "fault": {k: f[k] for k in ("kind", "sub", "module", "modules", "edited", "site", "before", "after")}}
+
+
+ILL = []       # the ill-typed corpus programs of the last run
+
+
+def ill_typed_corpus(d, first_id):
+    """Every program of corpus/c06/ill_typed, observed like a mutant whose fault is the whole program (first line:
+    `// fault: <operator kind>`)."""
+    import glob
+    del ILL[:]
+    for i, path in enumerate(sorted(glob.glob(os.path.join(VERIF, "corpus", "c06", "ill_typed", "*.sam")))):
+        text = open(path).read()
+        kind = re.match(r"// fault: ([\w-]+)", text)
+        if not kind:
+            tool_failure(f"{path}: first line must be `// fault: <operator kind>`")
+        ILL.append({"id": 200000 + i, "origin": "corpus:" + os.path.relpath(path, VERIF), "entry": "Main", "sources": {"Main": text},
+                    "kind": kind.group(1)})
+    if not ILL:
+        return []
+    inp, out = os.path.join(d, "in-ill.ndjson"), os.path.join(d, "rec-ill.ndjson")
+    write_ndjson(inp, ILL)
+    vh(["front-run", "--in", inp, "--out", out])
+    recs = read_ndjson(out)
+    if len(recs) != len(ILL):
+        tool_failure(f"front-run returned {len(recs)} records for {len(ILL)} ill-typed programs")
+    for p, r in zip(ILL, recs):
+        r.update({"id": first_id + (p["id"] - 200000), "base": p["id"], "origin": p["origin"] + "#ill-typed", "corpus": "ill",
+                  "fault": {"kind": p["kind"], "sub": "corpus-witness", "module": "Main", "modules": ["Main"], "edited": "Main",
+                            "site": "0:0", "before": "", "after": "", "start": 0, "end": 0}})
+    return recs
 
 
 CHUNK = 6000     # records per TLC run: a counterexample is the whole path, keep it printable
@@ -263,6 +295,9 @@ def run(tier):
     avoid, live = check_known(d, stats)
     gen, repo = corpus(d, tier)
     recs, census = mutate_and_observe(d, gen, repo, tier, avoid)
+    # hand-written ill-typed programs (corpus/c06/ill_typed: witnesses of repaired defects, each names the rule it breaks)
+    ill = ill_typed_corpus(d, len(recs))
+    recs += ill
     excused = []
     for r in recs:
         hit = next((k for k in live if not k.get("avoid") and kf_matches(k, r)), None)
@@ -276,7 +311,7 @@ def run(tier):
     base = baseline(d, gen, repo, tier)
     for i, r in enumerate(base):
         r["id"] = len(recs) + i
-    by_id = {p["id"]: p for p in gen + FEATS}
+    by_id = {p["id"]: p for p in gen + FEATS + ILL}
     by_id[0] = repo
     # 3. the verdict, by TLC
     bad = judge(recs + base, "main", d, stats)
